@@ -5,6 +5,8 @@ Only property theorems and non-vacuity examples; helper lemmas are in
 All theorems are about the definitions `Drivers/C06.lean` evaluates (`ckernel`,
 `weight1`, `weight2Sq`, `design1`, `design2`, `lpEstimate`, `lpEstimate1/2`, `lpPredict1/2`).
 -/
+import FDAModel.Generated.SmoothFormulas
+import FDAModel.LocalPolyIO
 import FDAProofs.Lemmas.LocalPoly
 import FDAProofs.Lemmas.Gaussian
 import FDAModel.Generated.Kernels
@@ -1017,6 +1019,86 @@ theorem counterexample : ¬ full_statement (reportedIgnoringBandwidth (1 / 2)) :
 all the theorems above then apply to the wrapper as to `LocalPolynomial.predict`. -/
 theorem wrapper_partial (h0 : ℚ) (k : CKernel) (d n : ℕ) (x y : ℕ → ℚ) (x0 : ℚ) :
     reportedIgnoringBandwidth h0 k h0 d n x y x0 = lpEstimate1 k h0 d n x y x0 := rfl
+
+/-! ### Tie of the code path to the current source (translator `harness/smooth_translate.py`, regenerated on every run) -/
+
+section SourceTie
+open FDA.NpLP FDA.Generated.Smooth
+set_option linter.unusedSimpArgs false
+set_option linter.unusedTactic false
+set_option linter.unreachableTactic false
+/-- Closes what unfolding leaves of a comparison between a translated formula and the model: written so that harmless
+variants of the source (`kernel_values * dmat.T`, `A @ B` for `np.dot(A, B)`, `np.abs(x0 - x)`, `(x - pts) * (1 / h)`)
+re-prove, while a changed power of the weights, a dropped weight, `x0 - x` in the design or another norm do not. -/
+macro "lp_close" : tactic =>
+  `(tactic| first | rfl | ring1 | (apply Finset.sum_congr rfl; intro _ _; ring1) | (congr 1; ring1) | (congr 2; ring1)
+                  | (rw [abs_sub_comm]) | (rw [abs_sub_comm]; congr 1; ring1) | (field_simp; ring1))
+
+/-- **`_local_regression` as the source has it is the model's weighted normal equations**: the matrix and the
+right-hand side handed to `lstsq`, the returned value `dmat_x0 · β`, the kept component of `lstsq`'s result, and the
+`rcond` literal — which is far below the reciprocal of the largest condition number the check compares at. -/
+theorem local_regression_src_eq_model :
+    (∀ n w D a b, lrMatSrc n w D a b = normalMat n w D a b) ∧
+    (∀ n w D y a, lrRhsSrc n w D y a = normalRhs n w D y a) ∧
+    (∀ p d0 β, lrValueSrc p d0 β = est p d0 β) ∧
+    lrSolutionIndexSrc = 0 ∧ lrRcondSrc = lstsqRcond ∧ lstsqRcond * condCompared ≤ 1 / 10 ^ 5 := by
+  refine ⟨?_, ?_, ?_, ?_, ?_, ?_⟩
+  · intro n w D a b
+    simp only [lrMatSrc, normalMat, dotMM, dotMV, dotVV, bcastRowMul, transpose, vmul, vscale, vpow] <;> lp_close
+  · intro n w D y a
+    simp only [lrRhsSrc, normalRhs, dotMM, dotMV, dotVV, bcastRowMul, transpose, vmul, vscale, vpow] <;> lp_close
+  · intro p d0 β
+    simp only [lrValueSrc, est, dotVV] <;> lp_close
+  · rfl
+  · norm_num [lrRcondSrc, lstsqRcond]
+  · norm_num [lstsqRcond, condCompared]
+
+/-- **`_compute_kernel` as the source has it**: 1-D `K(|x − x₀| / h)`, n-D `K(‖x − x₀‖₂ / h)`. -/
+theorem compute_kernel_src_eq_model :
+    (∀ k h x x0, weight1 k h x x0 = ckernel k (kernelArg1Src h x x0)) ∧
+    (∀ root k h x1 x2 x01 x02, weight2 root k h x1 x2 x01 x02 = ckernel k (kernelArg2Src root h x1 x2 x01 x02)) := by
+  constructor
+  · intro k h x x0
+    simp only [weight1, kernelArg1Src] <;> lp_close
+  · intro root k h x1 x2 x01 x02
+    simp only [weight2, kernelArg2Src, sqDist2] <;> lp_close
+
+/-- **The design of `LocalPolynomial.predict` as the source has it**: features of `(x − x₀)/h` (centred at the query,
+scaled by the bandwidth) — or of its negative `(x₀ − x)/h`, which is the model's design of the reflected data
+`(−x, −x₀)` and gives the same estimate by `shift_scale_invariant` with `a = −1`; query row = features of the origin,
+`PolynomialFeatures(degree)` with the constant column and all monomials, default query set = the unique sampling points. -/
+theorem predict_design_src_eq_model :
+    (∃ s : ℚ, (s = 1 ∨ s = -1) ∧
+      (∀ (h : ℚ) (x : ℕ → ℚ) (x0 : ℚ) (i k : ℕ), design1 h (fun i => s * x i) (s * x0) i k = designArgSrc h (x i) x0 ^ k) ∧
+      (∀ (h : ℚ) (d : ℕ) (x1 x2 : ℕ → ℚ) (x01 x02 : ℚ) (i a : ℕ), design2 h d (fun i => s * x1 i) (fun i => s * x2 i) (s * x01) (s * x02) i a =
+        designArgSrc h (x1 i) x01 ^ ((monos2 d).getD a (0, 0)).1 * designArgSrc h (x2 i) x02 ^ ((monos2 d).getD a (0, 0)).2)) ∧
+    (∀ a, unit0 a = queryPointSrc ^ a) ∧
+    polyDegreeIsOptionSrc = true ∧ polyIncludeBiasSrc = polyIncludeBias ∧ polyInteractionOnlySrc = polyInteractionOnly ∧
+    xnewDefaultUniqueSrc = true := by
+  refine ⟨?_, ?_, rfl, rfl, rfl, rfl⟩
+  · first
+      | (refine ⟨1, Or.inl rfl, ?_, ?_⟩
+         · intro h x x0 i k; simp only [design1, designArgSrc]; congr 1; ring1
+         · intro h d x1 x2 x01 x02 i a; simp only [design2, designArgSrc]; congr 2 <;> ring1)
+      | (refine ⟨-1, Or.inr rfl, ?_, ?_⟩
+         · intro h x x0 i k; simp only [design1, designArgSrc]; congr 1; ring1
+         · intro h d x1 x2 x01 x02 i a; simp only [design2, designArgSrc]; congr 2 <;> ring1)
+  · intro a
+    unfold unit0 queryPointSrc
+    by_cases ha : a = 0
+    · simp [ha]
+    · simp [ha]
+
+/-- **The kernel table and the default options as the source has them** are the model's; every tabulated name is one the
+driver evaluates. -/
+theorem kernel_table_src_eq_model :
+    kernelTableSrc = kernelTable ∧ lpDefaultKernelSrc = initKernel ∧ lpDefaultBandwidthSrc = initBandwidth ∧
+    lpDefaultDegreeSrc = initDegree ∧ lpDefaultRobustSrc = initRobust ∧
+    (∀ e ∈ kernelTable, e.1 = "gaussian" ∨ (FDA.LP.IO.parseCK? e.1).isSome = true) := by
+  refine ⟨by decide, by decide, ?_, rfl, rfl, by decide⟩
+  norm_num [lpDefaultBandwidthSrc, initBandwidth]
+
+end SourceTie
 
 /-! ### Non-vacuity: the hypotheses of the theorems above are met by concrete data -/
 
